@@ -25,6 +25,9 @@ def t_walk(chk, ix):
     rules_summary.check_collector_walk(chk, ix)
     rules_summary.check_tables_and_formats(chk, ix)
     rules_summary.check_formats_concrete(chk, ix)
+    # every counted step is counted under its own final status: no two scenarios / outline rows share a Step object
+    from .. import rules_order
+    rules_order.check_step_order(chk, ix)
 
 
 def run(chk, ix, tier):
